@@ -1,5 +1,12 @@
 # Registered checks: property id -> harness files, entries, bounds.  See DESIGN.md section 3.
 SPECS = {
+ "C13": {
+  "explanation": "Full stack on the HDF5 model: bounded append histories over the five descriptor kinds with symbolic interval, offset and tick values (all non-NaN doubles), read back through getDimension/dimensions()/as*Dimension after every step and after reopen; setters on existing descriptors; alias dimension mirrored in both directions with symbolic data.",
+  "bounds": {"quick": {"append_steps": 2, "ticks": "0..3 symbolic", "labels": "0..2", "data_frame_column": "0..4 of 3"}, "thorough": {"append_steps": 3}},
+  "outside": ["NaN intervals/offsets/ticks", "arrays of other rank/element type for the append histories", "interleavings of alias writes longer than the scripted one"],
+  "assumptions": ["libhdf5 replaced by h5model", "unit grammar replaced by an equivalent hand-written matcher"],
+  "harnesses": [{"file": "C13_dims.cpp", "defines": {"quick": ["-DVH_STEPS=2"], "thorough": ["-DVH_STEPS=3"]},
+     "entries": [{"entry": "vh_c13_append"}, {"entry": "vh_c13_modify"}, {"entry": "vh_c13_alias"}]}]},
  "C11": {
   "explanation": "Full stack on the HDF5 model's identifier table: with handles to every entity kind (and copies, a dimension, a DataView) alive or dropped, close() must leave zero open HDF5 identifiers of the file, isOpen() false, a second close a no-op; each of 16 uses of a stale handle must throw without touching or re-opening the file; the path can be truncated and reused afterwards.",
   "bounds": {"live_handles": "all of harness/world.hpp + dimension + DataView, or none", "stale_uses": 16},
